@@ -51,6 +51,29 @@ func Gosched()                     { Yield("gosched") }
 // YieldT is a scheduling point usable inside a condition: `YieldT(site) && (cond)`.
 func YieldT(site string) bool { Yield(site); return true }
 
+// YieldG is the scheduling point in front of a statement that mentions a package-level variable
+// which the program changes at run time.  It only exists while another task could run: with one
+// runnable task it is not a step (nothing logged, no budget used), so single-task phases - nearly
+// all of a compiler run - cost nothing.
+func YieldG(site string) {
+	if W == nil || W.cur == nil {
+		return
+	}
+	n := 0
+	for _, t := range W.tasks {
+		if t.state == tsRunnable {
+			n++
+			if n > 1 {
+				W.Res.Counters["global-var-yield"]++
+				W.yield("yield", site)
+				return
+			}
+		}
+	}
+}
+
+func YieldGT(site string) bool { YieldG(site); return true }
+
 // ---- math/rand ----
 
 func randStream() *rng {
